@@ -50,7 +50,9 @@ impl<'t, D: Doc> ScanResultInner<'t, D> {
   }
 }
 
-struct Suppressions(HashMap<usize, Suppression>);
+/// maps a line to all the suppressions governing it: an own-line comment above
+/// and a trailing comment on the line itself can both apply
+struct Suppressions(HashMap<usize, Vec<Suppression>>);
 impl Suppressions {
   fn collect<D: Doc>(&mut self, node: &Node<D>) {
     if !node.kind().contains("comment") || !node.text().contains(IGNORE_TEXT) {
@@ -63,22 +65,19 @@ impl Suppressions {
       true
     };
     let key = if suppress_next_line { line + 1 } else { line };
-    self.0.insert(
-      key,
-      Suppression {
-        suppressed: parse_suppression_set(&node.text()),
-        node_id: node.node_id(),
-      },
-    );
+    self.0.entry(key).or_default().push(Suppression {
+      suppressed: parse_suppression_set(&node.text()),
+      node_id: node.node_id(),
+    });
   }
 
   fn suppression_ids(&self) -> HashSet<usize> {
-    self.0.values().map(|s| s.node_id).collect()
+    self.0.values().flatten().map(|s| s.node_id).collect()
   }
 
   fn check_suppression<D: Doc>(&mut self, node: &Node<D>) -> MaySuppressed {
     let line = node.start_pos().line();
-    if let Some(sup) = self.0.get_mut(&line) {
+    if let Some(sup) = self.0.get(&line) {
       MaySuppressed::Yes(sup)
     } else {
       MaySuppressed::No
@@ -92,26 +91,31 @@ struct Suppression {
   node_id: usize,
 }
 
+impl Suppression {
+  fn covers(&self, rule_id: &str) -> bool {
+    match &self.suppressed {
+      Some(set) => set.contains(rule_id),
+      None => true,
+    }
+  }
+}
+
 enum MaySuppressed<'a> {
-  Yes(&'a Suppression),
+  Yes(&'a [Suppression]),
   No,
 }
 
-impl MaySuppressed<'_> {
-  fn suppressed_id(&self, rule_id: &str) -> Option<usize> {
-    let suppression = match self {
-      MaySuppressed::No => return None,
-      MaySuppressed::Yes(s) => s,
+impl<'a> MaySuppressed<'a> {
+  /// node ids of all the suppressions on the line that cover the rule
+  fn suppressed_ids(&self, rule_id: &'a str) -> impl Iterator<Item = usize> + 'a {
+    let suppressions = match self {
+      MaySuppressed::No => &[],
+      MaySuppressed::Yes(s) => *s,
     };
-    if let Some(set) = &suppression.suppressed {
-      if set.contains(rule_id) {
-        Some(suppression.node_id)
-      } else {
-        None
-      }
-    } else {
-      Some(suppression.node_id)
-    }
+    suppressions
+      .iter()
+      .filter(move |s| s.covers(rule_id))
+      .map(|s| s.node_id)
   }
 }
 
@@ -192,8 +196,12 @@ impl<'r, L: Language> CombinedScan<'r, L> {
         let Some(ret) = rule.matcher.match_node(node.clone()) else {
           continue;
         };
-        if let Some(id) = suppression.suppressed_id(&rule.id) {
+        let mut suppressed = false;
+        for id in suppression.suppressed_ids(&rule.id) {
           suppression_ids.remove(&id);
+          suppressed = true;
+        }
+        if suppressed {
           continue;
         }
         if rule.fix.is_none() || !separate_fix {
